@@ -152,7 +152,7 @@ func (s *musigSetup) refAgg() (pre, final *refmusig.KeyAggCtx, tw [][]byte, xo [
 func (s *musigSetup) keyAggOpts() []musig2.KeyAggOption {
 	switch s.tweakMode {
 	case 1:
-		return []musig2.KeyAggOption{musig2.WithKeyTweaks(append([]musig2.KeyTweakDesc{}, s.tweaks...)...)}
+		return []musig2.KeyAggOption{musig2.WithKeyTweaks(s.tweaks...)}
 	case 2:
 		return []musig2.KeyAggOption{musig2.WithTaprootKeyTweak(s.root)}
 	case 3:
@@ -168,7 +168,7 @@ func (s *musigSetup) signOpts(fast bool) []musig2.SignOption {
 	}
 	switch s.tweakMode {
 	case 1:
-		o = append(o, musig2.WithTweaks(append([]musig2.KeyTweakDesc{}, s.tweaks...)...))
+		o = append(o, musig2.WithTweaks(s.tweaks...))
 	case 2:
 		o = append(o, musig2.WithTaprootSignTweak(s.root))
 	case 3:
@@ -183,7 +183,7 @@ func (s *musigSetup) signOpts(fast bool) []musig2.SignOption {
 func (s *musigSetup) combineOpts() []musig2.CombineOption {
 	switch s.tweakMode {
 	case 1:
-		return []musig2.CombineOption{musig2.WithTweakedCombine(s.msg, s.pubs(), append([]musig2.KeyTweakDesc{}, s.tweaks...), s.sort)}
+		return []musig2.CombineOption{musig2.WithTweakedCombine(s.msg, s.pubs(), s.tweaks, s.sort)}
 	case 2:
 		return []musig2.CombineOption{musig2.WithTaprootTweakedCombine(s.msg, s.pubs(), s.root, s.sort)}
 	case 3:
@@ -208,27 +208,84 @@ func (s *musigSetup) desc(family string, extra map[string]any) map[string]any {
 	return m
 }
 
+// guard returns an inputGuard over everything a scenario hands to btcd: the private and public
+// key objects, the tweak descriptors and the script root.
+func (s *musigSetup) guard() *inputGuard {
+	g := &inputGuard{}
+	for i, sg := range s.signers {
+		g.priv(fmt.Sprintf("privkey%d", i), sg.priv).pub(fmt.Sprintf("pubkey%d", i), sg.pub)
+	}
+	g.bytes("script_root", s.root)
+	g.add("tweaks", func() []byte {
+		var b []byte
+		for _, t := range s.tweaks {
+			b = append(b, t.Tweak[:]...)
+			if t.IsXOnly {
+				b = append(b, 1)
+			} else {
+				b = append(b, 0)
+			}
+		}
+		return b
+	})
+	return g
+}
+
 // checkKeyAgg compares musig2.AggregateKeys with the reference; returns the reference contexts.
+// The option VALUES are built once and reused for several calls (same key list object, a fresh
+// list, and sometimes a different signer set): every call must equal the reference, and nothing
+// handed to btcd may have changed afterwards.
 func checkKeyAgg(k *mon.Case, s *musigSetup) (pre, final *refmusig.KeyAggCtx, tw [][]byte, xo []bool, ok bool) {
 	pre, final, tw, xo, rerr := s.refAgg()
-	agg, parity, tacc, err := musig2.AggregateKeys(s.pubs(), s.sort, s.keyAggOpts()...)
-	if (err == nil) != (rerr == nil) {
-		k.Failf(fmt.Sprintf("musig:AggregateKeys:btcd-%s-bip327-%s", b2s(err == nil), b2s(rerr == nil)), "%s err=%v referr=%v", s.shape, err, rerr)
+	opts := s.keyAggOpts()
+	pubs := s.pubs()
+	g := s.guard().pubs("key_list", pubs, !s.sort)
+	compare := func(rep string, keys []*btcec.PublicKey, su *musigSetup, pre, final *refmusig.KeyAggCtx, rerr error) bool {
+		agg, parity, tacc, err := musig2.AggregateKeys(keys, su.sort, opts...)
+		if (err == nil) != (rerr == nil) {
+			k.Failf(fmt.Sprintf("musig:AggregateKeys%s:btcd-%s-bip327-%s", rep, b2s(err == nil), b2s(rerr == nil)), "%s err=%v referr=%v", su.shape, err, rerr)
+			return false
+		}
+		if err != nil {
+			k.Count("musig.keyagg.error", 1)
+			return false
+		}
+		if !samePoint(agg.FinalKey, final.Q) {
+			k.Failf(fmt.Sprintf("musig:AggregateKeys%s:final-key-differs:tweakmode%d", rep, su.tweakMode), "%s btcd=%x ref=%x", su.shape, agg.FinalKey.SerializeCompressed(), final.Q.Compressed())
+			return false
+		}
+		if !samePoint(agg.PreTweakedKey, pre.Q) {
+			k.Failf("musig:AggregateKeys"+rep+":pre-tweak-key-differs", "%s btcd=%x ref=%x", su.shape, agg.PreTweakedKey.SerializeCompressed(), pre.Q.Compressed())
+		}
+		if intFromScalar(parity).Cmp(final.Gacc) != 0 || intFromScalar(tacc).Cmp(final.Tacc) != 0 {
+			k.Failf("musig:AggregateKeys"+rep+":accumulators-differ", "%s parity=%x tacc=%x ref gacc=%x tacc=%x", su.shape, intFromScalar(parity), intFromScalar(tacc), final.Gacc, final.Tacc)
+		}
+		k.Count("musig.keyagg", 1)
+		return true
+	}
+	ok = compare("", pubs, s, pre, final, rerr)
+	// the same option values again: same list object, then a fresh list
+	ok2 := compare(":options-reused", pubs, s, pre, final, rerr)
+	ok3 := compare(":options-reused", s.pubs(), s, pre, final, rerr)
+	if ok != ok2 || ok != ok3 {
+		k.Failf("musig:AggregateKeys:options-reused:not-idempotent", "%s first=%v second=%v third=%v", s.shape, ok, ok2, ok3)
+	}
+	// and for another signer set (one signer fewer, or the list rotated)
+	if n := len(s.signers); n >= 2 && k.Index%3 == 0 {
+		o := *s
+		if k.Index%2 == 0 {
+			o.signers = s.signers[:n-1]
+		} else {
+			o.signers = append(append([]*signer{}, s.signers[1:]...), s.signers[0])
+		}
+		o.shape = s.shape + ",other-set"
+		opre, ofinal, _, _, oerr := o.refAgg()
+		compare(":options-reused-other-set", o.pubs(), &o, opre, ofinal, oerr)
+		k.Count("musig.keyagg.other_set", 1)
+	}
+	g.check(k, "musig2.AggregateKeys")
+	if !ok {
 		return nil, nil, nil, nil, false
-	}
-	if err != nil {
-		k.Count("musig.keyagg.error", 1)
-		return nil, nil, nil, nil, false
-	}
-	if !samePoint(agg.FinalKey, final.Q) {
-		k.Failf(fmt.Sprintf("musig:AggregateKeys:final-key-differs:tweakmode%d", s.tweakMode), "%s btcd=%x ref=%x", s.shape, agg.FinalKey.SerializeCompressed(), final.Q.Compressed())
-		return nil, nil, nil, nil, false
-	}
-	if !samePoint(agg.PreTweakedKey, pre.Q) {
-		k.Failf("musig:AggregateKeys:pre-tweak-key-differs", "%s btcd=%x ref=%x", s.shape, agg.PreTweakedKey.SerializeCompressed(), pre.Q.Compressed())
-	}
-	if intFromScalar(parity).Cmp(final.Gacc) != 0 || intFromScalar(tacc).Cmp(final.Tacc) != 0 {
-		k.Failf("musig:AggregateKeys:accumulators-differ", "%s parity=%x tacc=%x ref gacc=%x tacc=%x", s.shape, intFromScalar(parity), intFromScalar(tacc), final.Gacc, final.Tacc)
 	}
 	if s.tweakMode >= 2 {
 		// independent of BIP327: the BIP341 output key lift_x(x(P)) + t*G
@@ -237,7 +294,7 @@ func checkKeyAgg(k *mon.Case, s *musigSetup) (pre, final *refmusig.KeyAggCtx, tw
 			k.Failf("calibration:refmusig:taproot-tweak", "x-only tweak differs from BIP341 output key")
 		}
 	}
-	k.Count("musig.keyagg", 1)
+	k.Count("musig.keyagg.reused_options", 1)
 	return pre, final, tw, xo, true
 }
 
@@ -266,11 +323,18 @@ func genNonce(k *mon.Case, r *mon.Rand, s *musigSetup, sg *signer, aggX []byte) 
 		extra = r.Bytes(r.Intn(41))
 		opts = append(opts, musig2.WithNonceAuxInput(extra))
 	}
+	g := (&inputGuard{}).bytes("aux_input", extra).bytes("rand", rnd).priv("secret_key", sg.priv).pub("public_key", sg.pub)
 	n, err := musig2.GenNonces(opts...)
 	if err != nil {
 		k.Failf("musig:GenNonces:error-on-valid-input", "%v", err)
 		return false
 	}
+	// same option values again (the random source is a reader: give it the same bytes)
+	opts[0] = musig2.WithCustomRand(bytes.NewReader(rnd))
+	if n2, err := musig2.GenNonces(opts...); err != nil || *n2 != *n {
+		k.Failf("musig:GenNonces:options-reused:not-idempotent", "rand=%x pk=%x err=%v", rnd, sg.pk, err)
+	}
+	g.check(k, "musig2.GenNonces")
 	wantSec, wantPub, rerr := refmusig.NonceGen(rnd, sk, sg.pk, agg, msg, extra)
 	if rerr != nil || !bytes.Equal(n.SecNonce[:], wantSec) || !bytes.Equal(n.PubNonce[:], wantPub) {
 		k.Failf("musig:GenNonces:differs-from-bip327-noncegen", "rand=%x sk=%x pk=%x aggpk=%x msg=%x extra=%x got sec=%x pub=%x want sec=%x pub=%x (%v)",
@@ -338,7 +402,20 @@ func famMusigFree(k *mon.Case) {
 		pubNs = append(pubNs, sg.pubN)
 		refPubNs = append(refPubNs, append([]byte{}, sg.pubN[:]...))
 	}
+	g := s.guard()
+	pubs := s.pubs() // ONE list object for every call of the session (btcd may sort it when asked to)
+	g.pubs("key_list", pubs, !s.sort)
+	g.add("pubnonces", func() []byte {
+		var b []byte
+		for _, pn := range pubNs {
+			b = append(b, pn[:]...)
+		}
+		return b
+	})
 	aggN, err := musig2.AggregateNonces(pubNs)
+	if again, err2 := musig2.AggregateNonces(pubNs); again != aggN || (err == nil) != (err2 == nil) {
+		k.Failf("musig:AggregateNonces:not-idempotent", "%s first=%x second=%x", s.shape, aggN, again)
+	}
 	wantAgg, rerr := refmusig.NonceAgg(refPubNs)
 	if err != nil || rerr != nil || !bytes.Equal(aggN[:], wantAgg) {
 		k.Failf(fmt.Sprintf("musig:AggregateNonces:differs-from-bip327:noncemode%d", nonceMode), "%s nonces=%x got=%x err=%v want=%x referr=%v", s.shape, refPubNs, aggN, err, wantAgg, rerr)
@@ -361,7 +438,7 @@ func famMusigFree(k *mon.Case) {
 	var psigs []*musig2.PartialSignature
 	var refPsigs [][]byte
 	for i, sg := range s.signers {
-		ps, err := musig2.Sign(sg.sec, sg.priv, aggN, s.pubs(), s.msg, opts...)
+		ps, err := musig2.Sign(sg.sec, sg.priv, aggN, pubs, s.msg, opts...)
 		if err != nil {
 			k.Failf(fmt.Sprintf("musig:Sign:error-on-valid-session:noncemode%d", nonceMode), "%s signer=%d err=%v", s.shape, i, err)
 			return
@@ -376,7 +453,7 @@ func famMusigFree(k *mon.Case) {
 			k.Failf("musig:Sign:final-nonce-differs-from-bip327", "%s signer=%d R=%x want=%x", s.shape, i, ps.R.SerializeCompressed(), vals.R.Compressed())
 		}
 		// every honest partial signature verifies, under btcd and under BIP327
-		if !ps.Verify(sg.pubN, aggN, s.pubs(), sg.pub, s.msg, opts...) {
+		if !ps.Verify(sg.pubN, aggN, pubs, sg.pub, s.msg, opts...) {
 			k.Failf(fmt.Sprintf("musig:PartialSignature.Verify:rejects-honest-signature:noncemode%d", nonceMode), "%s signer=%d s=%x", s.shape, i, got)
 		}
 		if !refmusig.PartialSigVerifyV(want, sg.pubN[:], sg.pk, sess, vals) {
@@ -454,7 +531,10 @@ func famMusigFree(k *mon.Case) {
 		bsess.Msg = msg[:]
 		bvals, berr := bsess.ValuesFrom(final)
 		want := berr == nil && refmusig.PartialSigVerifyV(refec.Bytes32(sv), pubN[:], key.pk, &bsess, bvals)
-		got := bad.Verify(pubN, aggN, s.pubs(), key.pub, msg, opts...)
+		got := bad.Verify(pubN, aggN, pubs, key.pub, msg, opts...)
+		if again := bad.Verify(pubN, aggN, pubs, key.pub, msg, opts...); again != got {
+			k.Failf("musig:PartialSignature.Verify:not-idempotent", "%s signer=%d variant=%s first=%v second=%v", s.shape, i, name, got, again)
+		}
 		if got != want {
 			k.Failf(fmt.Sprintf("musig:PartialSignature.Verify:%s:btcd-%s-bip327-%s", name, b2s(got), b2s(want)), "%s signer=%d s=%x verified-as key=%x pubnonce=%x aggnonce=%x msg=%x", s.shape, i, sv, key.pk, pubN, aggN, msg)
 		}
@@ -462,9 +542,22 @@ func famMusigFree(k *mon.Case) {
 		k.Count("musig.partial.verify.variant."+name, 1)
 	}
 	// aggregation
-	fin := musig2.CombineSigs(psigs[0].R, psigs, s.combineOpts()...)
+	g.add("partial_sigs", func() []byte {
+		var b []byte
+		for _, ps := range psigs {
+			sb := ps.S.Bytes()
+			b = append(append(b, sb[:]...), ps.R.SerializeCompressed()...)
+		}
+		return b
+	})
+	copts := s.combineOpts() // option values built once, applied twice
+	fin := musig2.CombineSigs(psigs[0].R, psigs, copts...)
 	wantFin, rerr := refmusig.PartialSigAggV(refPsigs, vals)
 	fb := fin.Serialize()
+	if again := musig2.CombineSigs(psigs[0].R, psigs, copts...); !bytes.Equal(again.Serialize(), fb) {
+		k.Failf("musig:CombineSigs:options-reused:not-idempotent", "%s first=%x second=%x", s.shape, fb, again.Serialize())
+	}
+	g.check(k, "musig2.Sign/Verify/CombineSigs")
 	if rerr != nil || !bytes.Equal(fb, wantFin) {
 		k.Failf(fmt.Sprintf("musig:CombineSigs:differs-from-bip327:tweakmode%d", s.tweakMode), "%s got=%x want=%x referr=%v", s.shape, fb, wantFin, rerr)
 	}
@@ -515,7 +608,7 @@ func famMusigContext(k *mon.Case) {
 		var o []musig2.ContextOption
 		switch s.tweakMode {
 		case 1:
-			o = append(o, musig2.WithTweakedContext(append([]musig2.KeyTweakDesc{}, s.tweaks...)...))
+			o = append(o, musig2.WithTweakedContext(s.tweaks...))
 		case 2:
 			o = append(o, musig2.WithTaprootTweakCtx(s.root))
 		case 3:
@@ -525,12 +618,30 @@ func famMusigContext(k *mon.Case) {
 	}
 	sessions := make([]*musig2.Session, n)
 	knownSec := make([]bool, n)
+	// the context option VALUES (tweaks and the signer list) are prepared once and handed to every
+	// NewContext call of the case, the way a coordinator would
+	g := s.guard()
+	sharedList := s.pubs()
+	g.pubs("key_list", sharedList, !s.sort)
+	shared := ctxOpts()
+	known := musig2.WithKnownSigners(sharedList)
 	for i, sg := range s.signers {
-		o := ctxOpts()
+		o := append([]musig2.ContextOption{}, shared...)
 		var ctx *musig2.Context
 		var err error
 		if learn == 0 {
-			ctx, err = musig2.NewContext(sg.priv, s.sort, append(o, musig2.WithKnownSigners(s.pubs()))...)
+			ctx, err = musig2.NewContext(sg.priv, s.sort, append(o, known)...)
+			// a second context from the same option values must come out the same
+			if ctx2, err2 := musig2.NewContext(sg.priv, s.sort, append(o, known)...); err == nil {
+				ck2, err3 := ctx2, err2
+				var k2 *btcec.PublicKey
+				if err3 == nil {
+					k2, err3 = ck2.CombinedKey()
+				}
+				if err3 != nil || !samePoint(k2, final.Q) {
+					k.Failf(fmt.Sprintf("musig:Context.CombinedKey:options-reused:differs-from-bip327:tweakmode%d", s.tweakMode), "%s signer=%d err=%v", s.shape, i, err3)
+				}
+			}
 		} else {
 			o = append(o, musig2.WithNumSigners(n))
 			if learn == 2 {
@@ -715,6 +826,7 @@ func famMusigContext(k *mon.Case) {
 			k.Failf("musig:schnorr.Verify:rejects-final-signature", "%s aggkey=%x sig=%x", s.shape, final.Q.XOnly(), fb)
 		}
 	}
+	g.check(k, "musig2.Context/Session")
 	k.Count("musig.ctx.session", 1)
 	k.Count(fmt.Sprintf("musig.ctx.learn%d", learn), 1)
 	k.Count(fmt.Sprintf("musig.ctx.n%d", n), 1)
